@@ -72,7 +72,7 @@ def count_specs(tier: str):
 
 
 def specs(tier: str):
-    out = count_specs(tier) + [sp for sp in families.extra_specs("zero", tier) if sp.family.startswith("newline(none)")]
+    out = count_specs(tier) + [sp for sp in families.extra_specs("zero", tier) if sp.family.startswith("newline(none)")] + families.metachar_specs("zero", tier)
     for n, exact, L, silent in BOUNDS[tier]:
         ins = families.inputs(families.SIGMA_CORE, L)
         for body in families.core_exprs(n, exact=exact):
